@@ -436,7 +436,7 @@ impl<'a, F: IVP> SolOut for DefaultSolOut<'a, F> {
             }
             
             // Normal output: record endpoint (avoid duplicates)
-            if self.t.is_empty() || (self.t.last().unwrap() - *x).abs() > self.tol {
+            if self.t.is_empty() || *self.t.last().unwrap() != *x {
                 self.t.push(*x);
                 self.y.push(y.to_vec());
             }
